@@ -8,28 +8,29 @@ import ScVerif.C08.SubscribeLemmas
   lock (up to five attempts).  `include` decides from `OldValue` whether the subscriber has the item,
   so the REMOVE must carry the value that was actually removed — for every interference.
 * `Collection.onUpdate` computes the seed (evaluating the include predicate) and registers the
-  listener under ONE read lock.  With a writer running concurrently — committing under the write
-  lock, publishing after releasing it — the subscriber's fold is the filtered collection at every
-  quiescent point of EVERY schedule, and lags by exactly the one unpublished event otherwise.
+  listener under ONE read lock.  With writers running concurrently — committing under the write
+  lock, publishing after releasing it, in commit order — the subscriber's fold is the filtered
+  collection at every quiescent point of EVERY schedule, and lags by the unpublished events otherwise.
 
 Only property theorems and their non-vacuity examples live in this file.
 -/
 namespace ScVerif.C08
 open ScVerif.C09
 
-variable {ι μ : Type} [DecidableEq ι]
+variable {ι μ : Type} [DecidableEq ι] [DecidableEq μ]
 
-/-- `Delete` under interference: for every id, every contents and EVERY interference `intf` (the writes
-that land, attempt by attempt, between Delete's read and its write lock — its own check callback writing
-to the collection, or other writers), everything published is a well-formed history from the contents at
+/-- `Delete` under interference: for every id, every contents, every precondition `guard` (the outcome of
+`WithExpectedCheck` / `WithExpectedValue` on the value read, per attempt) and EVERY interference `intf` (the
+writes that land, attempt by attempt, between Delete's read and its write lock — its own check callback
+writing to the collection, or other writers), everything published is a well-formed history from the contents at
 the start and folds to the final contents; and if Delete ends by publishing a REMOVE of `i`, that event's
 `old` is exactly the value stored when it was removed (not the value first read). -/
 theorem C08_delete_retry_removes_current (t : Nat) (items : List (ι × μ)) (hn : NodupKeys items)
-    (i : ι) (intf : List (List (Op ι μ))) :
-    let r := stepAct t items (.deleteRetry i intf)
+    (i : ι) (intf : List (List (Op ι μ))) (guard : Nat → μ → Bool) :
+    let r := stepAct t items (.deleteRetry i intf guard)
     NodupKeys r.1 ∧ WFHist (viewOf items) r.2 ∧ fold r.2 (viewOf items) = viewOf r.1 ∧
     (∀ pre c, r.2 = pre ++ [c] → c.kind = .remove → c.old = fold pre (viewOf items) c.id) := by
-  have h := stepAct_spec t hn (Act.deleteRetry i intf)
+  have h := stepAct_spec t hn (Act.deleteRetry i intf guard)
   refine ⟨h.1, h.2.1, h.2.2, ?_⟩
   intro pre c hpc hk
   have hw := h.2.1
@@ -37,6 +38,38 @@ theorem C08_delete_retry_removes_current (t : Nat) (items : List (ι × μ)) (hn
   have hc := hw.2.1
   simp only [WFChange, hk] at hc
   exact hc.2.1
+
+/-- `Add`/`Update` under interference (the code after the `fix:`): for every id, value, option pair
+(create-if-absent, expect-absent), representation of the empty message and EVERY sequence of writes landing
+between Update's read and its write lock (its own check callback or interceptor writing to the
+collection, or other writers): everything published is a well-formed history from the contents at the
+start to the final contents — in particular the write's own event is an ADD exactly when nothing is stored
+when it commits, and otherwise an UPDATE whose `old` is the stored value — so `include` judges it right. -/
+theorem C08_update_retry_event_current (t : Nat) (items : List (ι × μ)) (hn : NodupKeys items)
+    (i : ι) (v : μ) (create expectAbsent : Bool) (intf : List (Op ι μ)) (empty : μ) :
+    let r := stepAct t items (.writeRetry i v create expectAbsent intf empty)
+    NodupKeys r.1 ∧ WFHist (viewOf items) r.2 ∧ fold r.2 (viewOf items) = viewOf r.1 :=
+  stepAct_spec t hn (Act.writeRetry i v create expectAbsent intf empty)
+
+/-- The defect the `fix:` commit repaired, on the model of the code before it (`writeRetryLegacy`): an
+upsert of an absent id whose callback creates the id holding exactly the empty message goes through
+(`proto.Equal(created, stored)`), and announced itself as an ADD without old value although the item
+existed: not a well-formed history — and with a predicate matching the empty message but not the new
+value `include` drops that ADD, so the subscriber keeps an item `List(WithInclude)` no longer has. -/
+theorem C08_update_retry_legacy_fails :
+    ∃ (items : List (Nat × Nat)) (i v e : Nat) (intf : List (Op Nat Nat)) (p : Pred Nat Nat),
+      NodupKeys items ∧
+      ¬ WFHist (viewOf items) (writeRetryLegacy e 0 items i v true false intf).2 ∧
+      fold ((writeRetryLegacy e 0 items i v true false intf).2.filterMap (includeChange (some p)))
+          (filterView (some p) (viewOf items)) i
+        ≠ filterView (some p) (viewOf (writeRetryLegacy e 0 items i v true false intf).1) i := by
+  refine ⟨[], 1, 7, 0, [.add 1 0], fun _ m => m == some 0, ?_, ?_, ?_⟩
+  · unfold NodupKeys; decide
+  · intro h
+    have h2 := h.2.1
+    simp [writeRetryLegacy, getForUpdate, runOps, stepOp, mkChange, WFChange, apply, View.set, viewOf, setKey,
+      eraseKey] at h2
+  · decide
 
 /-- `Pull(WithInclude p, WithReadMask m)` against `List` over histories that contain re-entrant deletes:
 for every predicate, projection, contents and history of plain writes and interfered deletes, the seed
@@ -85,17 +118,21 @@ theorem C08_pull_full_pipeline_list_reentrant (p : Option (Pred ι μ)) (proj : 
   rw [hms, hops.2.2, ← viewOf_itemSlice p _ hops.1, ← viewOf_itemSlice p items hn] at h
   exact h
 
-/-- Subscribing while a writer runs (the code as it is: seed and `Listen` under one read lock).  For
-every predicate, initial contents and EVERY schedule of the steps commit / publish / deleteNow of the
-writer thread and snapshot / listen of the subscriber:
+/-- Subscribing while writers run (the code as it is: seed and `Listen` under one read lock).  For every
+predicate, initial contents and EVERY schedule of the steps commit / publish / deleteNow of any number of
+writers — commits under the write lock in any order, publications after the lock in commit order (C03's
+`ordered` hypothesis; one writer thread satisfies it by construction) — and snapshot / listen of the
+subscriber:
 * while the subscriber holds the lock its seed IS the filtered list of the current contents;
-* once it listens, the fold of its seed and the include-filtered events it received is the filtered
-  collection of a view `V` that is the current contents when nothing is pending, and otherwise lags by
-  exactly the pending (committed, unpublished) event: `apply c V = contents`;
-* so at every quiescent point (`pend = none`) the seed — in ANY order — followed by the filtered events
+* once it listens there is a published view `T` from which the pending events lead, well formed, to the
+  current contents, and a number `k` of pending events committed before its snapshot, such that its fold
+  (seed + include-filtered received events) is, id by id, the filter of the snapshot `fold (pend.take k) T`
+  or the filter of `T` — exactly `filterView p T` once those `k` stale events are out;
+* so at every quiescent point (`pend = []`) the seed — in ANY order — followed by the filtered events
   folds from the empty view to `List(WithInclude p)` of the current contents.
-This includes the schedules in which the subscriber snapshots between a commit and its publication and
-is then sent an event its seed already contains (`include_stale`). -/
+This includes the schedules in which the subscriber snapshots between commits and their publications and
+is then sent events its seed already contains; `include` may meanwhile forward ADDs/REMOVEs that make
+its view differ from both views at that id, and the last stale event of the id repairs it (`Near_step`). -/
 theorem C08_subscribe_atomic (p : Option (Pred ι μ)) (items : List (ι × μ)) (hn : NodupKeys items)
     (sched : List (Step ι μ)) :
     let s := sysRun true p (Sys.init items) sched
@@ -103,33 +140,37 @@ theorem C08_subscribe_atomic (p : Option (Pred ι μ)) (items : List (ι × μ))
     | .idle => True
     | .snapping seed => seed = itemSlice p s.items
     | .listening seed recv =>
-      (∃ V, subView p seed recv = filterView p V ∧
-        match s.pend with
-        | none => V = viewOf s.items
-        | some c => apply c V = viewOf s.items) ∧
-      (s.pend = none → ∀ (order : List (ι × μ)) (t : Nat), order.Perm seed →
+      (∃ (T : View ι μ) (k : Nat), k ≤ s.pend.length ∧ WFHist T s.pend ∧
+        fold s.pend T = viewOf s.items ∧
+        (∀ i, subView p seed recv i = filterView p (fold (s.pend.take k) T) i ∨
+              subView p seed recv i = filterView p T i) ∧
+        (k = 0 → subView p seed recv = filterView p T)) ∧
+      (s.pend = [] → ∀ (order : List (ι × μ)) (t : Nat), order.Perm seed →
         fold (seedFrom t order ++ recv.filterMap (includeChange p)) View.empty
           = viewOf (itemSlice p s.items) ∧
         viewOf (itemSlice p s.items) = filterView p (viewOf s.items)) := by
   have h := sysRun_inv p (Sys.init items) sched (SubInv_init p items hn)
   generalize sysRun true p (Sys.init items) sched = s at h
-  obtain ⟨hn', hG, hsub⟩ := h
+  obtain ⟨hn', T, hwf, hfold, hsub⟩ := h
   rcases s with ⟨its, pend, sub, t⟩
   cases sub with
   | idle => trivial
   | snapping seed => exact hsub
   | listening seed recv =>
-    obtain ⟨hns, V, hv, hV⟩ := hsub
-    simp only at hV hn' hv
-    refine ⟨⟨V, hv, ?_⟩, ?_⟩
-    · cases pend with
-      | none => exact hV
-      | some c => exact hV.1
+    obtain ⟨hns, k, hk, hnear⟩ := hsub
+    simp only at hn' hwf hfold hk hnear
+    refine ⟨⟨T, k, hk, hwf, hfold, hnear, ?_⟩, ?_⟩
+    · intro hk0
+      subst hk0
+      exact Near_self (by simpa using hnear)
     · intro hp order t' hperm
       simp only at hp
       subst hp
-      simp only at hV
-      subst hV
+      have hk0 : k = 0 := by simpa using hk
+      subst hk0
+      have hT : T = viewOf its := hfold
+      subst hT
+      have hv : subView p seed recv = filterView p (viewOf its) := Near_self (by simpa using hnear)
       have hlist := viewOf_itemSlice p its hn'
       refine ⟨?_, hlist⟩
       -- the seed in any order folds to `viewOf seed`
@@ -154,7 +195,7 @@ theorem C08_subscribe_needs_lock :
       (recv : List (Change Nat Nat)),
       NodupKeys items ∧
       (sysRun false (none : Option (Pred Nat Nat)) (Sys.init items) sched).sub = .listening seed recv ∧
-      (sysRun false (none : Option (Pred Nat Nat)) (Sys.init items) sched).pend = none ∧
+      (sysRun false (none : Option (Pred Nat Nat)) (Sys.init items) sched).pend = [] ∧
       subView (none : Option (Pred Nat Nat)) seed recv 1
         ≠ viewOf (itemSlice none (sysRun false (none : Option (Pred Nat Nat)) (Sys.init items) sched).items) 1 := by
   refine ⟨[(1, 10)], [.snapshot, .commit (.update 1 20), .publish, .listen], [(1, 10)], [], ?_, rfl, rfl, ?_⟩
@@ -173,15 +214,35 @@ subscriber is sent ADD 20 (the nested update makes the item match) and then REMO
 value actually removed — had the REMOVE carried the value first read (10, not matching) `include` would
 have swallowed it. -/
 example :
-    ((stepAct 0 [(1, 10)] (.deleteRetry 1 [[.update 1 20]])).2.filterMap
+    ((stepAct 0 [(1, 10)] (.deleteRetry 1 [[.update 1 20]] (fun _ _ => true))).2.filterMap
         (includeChange (some p20))).map (fun c => (c.kind, c.old, c.new))
       = [(.add, none, some 20), (.remove, some 20, none)] := by decide
 
 /-- five interfering writes exhaust Delete's attempts: five UPDATEs are published, no REMOVE, the item stays -/
 example :
-    ((stepAct 0 [(1, 10)] (.deleteRetry 1 (List.replicate 5 [.update 1 20]))).2.map (·.kind),
-     (stepAct 0 [(1, 10)] (.deleteRetry 1 (List.replicate 5 [.update 1 20]))).1)
+    ((stepAct 0 [(1, 10)] (.deleteRetry 1 (List.replicate 5 [.update 1 20]) (fun _ _ => true))).2.map (·.kind),
+     (stepAct 0 [(1, 10)] (.deleteRetry 1 (List.replicate 5 [.update 1 20]) (fun _ _ => true))).1)
       = ([.update, .update, .update, .update, .update], [(1, 20)]) := by decide
+
+/-- `Delete(WithExpectedValue 10)` whose check callback first updates the item to 20: the precondition is
+judged on the value READ (10: accepted), the re-check under the lock sees another item, and the second
+attempt reads 20, which the precondition rejects: an UPDATE was published, nothing was deleted -/
+example :
+    ((stepAct 0 [(1, 10)] (.deleteRetry 1 [[.update 1 20]] (fun _ o => o == 10))).2.map (·.kind),
+     (stepAct 0 [(1, 10)] (.deleteRetry 1 [[.update 1 20]] (fun _ o => o == 10))).1)
+      = ([.update], [(1, 20)]) := by decide
+
+/-- the fixed code on the witness of `C08_update_retry_legacy_fails`: ADD of the empty message by the
+callback, then UPDATE from it — with the predicate "is the empty message" the subscriber is sent ADD, REMOVE -/
+example :
+    ((stepAct 0 ([] : List (Nat × Nat)) (.writeRetry 1 7 true false [.add 1 0] 0)).2.filterMap
+        (includeChange (some (fun _ m => m == some 0)))).map (fun c => (c.kind, c.old, c.new))
+      = [(.add, none, some 0), (.remove, some 0, none)] := by decide
+
+/-- a callback writing a DIFFERENT value makes the outer update abort: only the callback's event -/
+example :
+    (stepAct 0 [(1, 10)] (.writeRetry 1 7 false false [.update 1 20] 0)).2.map (fun c => (c.kind, c.old, c.new))
+      = [(.update, some 10, some 20)] := by decide
 
 /-- a schedule of `C08_subscribe_atomic` in which the subscriber snapshots BETWEEN a commit and its
 publication: the seed already holds 20, the late UPDATE 10→20 arrives as well (stale), and the fold is
@@ -192,6 +253,18 @@ example :
     (match s.sub with
      | .listening seed recv => (seed, recv.map (fun c => (c.kind, c.old, c.new)), subView (some p20) seed recv 1)
      | _ => ([], [], none)) = ([(1, 20)], [(.update, some 10, some 20)], some 20) ∧ s.items = [(1, 20)] := by
+  decide
+
+/-- two writers' commits pending when the subscriber snapshots (contents 30, not matching "value 20"):
+the stale UPDATE 10→20 reaches it as an ADD of 20 — for a moment its view matches neither the snapshot
+nor the published view at that id — and the second stale event (20→30, REMOVE) repairs it -/
+example :
+    let run := fun (n : Nat) => sysRun true (some p20) (Sys.init [(1, 10)])
+      ([Step.commit (.update 1 20), .commit (.update 1 30), .snapshot, .listen] ++ List.replicate n Step.publish)
+    let view := fun (n : Nat) => match (run n).sub with
+      | .listening seed recv => subView (some p20) seed recv 1
+      | _ => none
+    (view 0, view 1, view 2, (run 2).pend.length) = (none, some 20, none, 0) := by
   decide
 
 end examples
